@@ -37,6 +37,25 @@ fn verif_search() {
             panic!("contract of the location counter violated");
         }
     }}}
+    // pseudo-random origins and sizes (fixed LCG, seeded by VERIF_SEED)
+    let mut st: u64 = 0x9E3779B97F4A7C15 ^ std::env::var("VERIF_SEED").ok().and_then(|s| s.parse::<u64>().ok()).unwrap_or(0);
+    let mut next = || { st = st.wrapping_mul(6364136223846793005).wrapping_add(1442695040888963407); (st >> 33) as u32 };
+    for _ in 0..1500 {
+        let x = next() & 0xFFFF; let n = (next() & 0xFFFF).max(1); let m = if next() & 1 == 0 { 0 } else { (next() & 0x3FF).max(1) };
+        let mut src = format!(".orig x{x:04X}\n.blkw #{n}\n");
+        if m > 0 { src += &format!(".blkw #{m}\n"); }
+        src += ".end\n";
+        let ast = parse_ast(&src).expect("program parses");
+        let got = match assemble(ast) { Ok(_) => "Ok".to_string(), Err(e) => kind_name(&e.kind) };
+        let classify = |end: u32| if end <= 0xFE00 { "Ok" } else if end <= 0x10000 { "BlockInIO" } else { "WrappingBlock" };
+        let e1 = x + n;
+        let want = if classify(e1) != "Ok" || m == 0 { classify(e1) } else { classify(e1 + m) };
+        checked += 1;
+        if got != want {
+            println!("VERIF-FOUND {{\"program\": {src:?}, \"observed\": {got:?}, \"expected\": {want:?}}}");
+            panic!("contract of the location counter violated");
+        }
+    }
     println!("VERIF-NONE checked={checked}");
 }
 '''
@@ -46,7 +65,7 @@ use lc3_ensemble::asm::SourceInfo;
 #[test]
 fn verif_search() {
     let mut checked = 0u32;
-    for len in 0..=6usize { for bits in 0..(1u32 << len) {
+    for len in 0..=8usize { for bits in 0..(1u32 << len) {
         let s: String = (0..len).map(|i| if bits >> i & 1 == 1 { '\n' } else { 'a' }).collect();
         let si = SourceInfo::new(&s);
         let nls: Vec<usize> = s.bytes().enumerate().filter(|(_, b)| *b == b'\n').map(|(i, _)| i).collect();
@@ -87,8 +106,8 @@ fn gaps(t: &mut TimerDevice, polls: usize) -> (Option<usize>, Vec<usize>) {
 #[test]
 fn verif_search() {
     let mut checked = 0u32;
-    let ranges: [(u32, u32); 8] = [(1, 1), (2, 2), (3, 3), (6, 6), (1, 3), (2, 5), (1, 2), (4, 4)];
-    for &(a, b) in &ranges { for seed in 1..=6u64 {
+    let ranges: [(u32, u32); 12] = [(1, 1), (2, 2), (3, 3), (6, 6), (1, 3), (2, 5), (1, 2), (4, 4), (5, 9), (10, 10), (1, 6), (7, 8)];
+    for &(a, b) in &ranges { for seed in 1..=10u64 {
         let mut t = TimerDevice::new(Some(seed), a..=b, 0x81, 4);
         t.enabled = true;
         let (first, g) = gaps(&mut t, 200);
@@ -133,7 +152,7 @@ def run(kind, repo, seed=0):
         with open(os.path.join(work, "tests", "verif_search.rs"), "w") as f:
             f.write(src)
         cmd = ["cargo", "test", "--offline", "--test", "verif_search", "--", "--nocapture"]
-        p = subprocess.run(cmd, cwd=work, capture_output=True, text=True, timeout=900, env=dict(os.environ, CARGO_NET_OFFLINE="true"))
+        p = subprocess.run(cmd, cwd=work, capture_output=True, text=True, timeout=900, env=dict(os.environ, CARGO_NET_OFFLINE="true", VERIF_SEED=str(seed)))
         out = p.stdout + p.stderr
         m = re.search(r"VERIF-FOUND (\{.*\})", out)
         if m:
